@@ -32,6 +32,7 @@ from exabgp.logger import lazymsg, log
 # from exabgp.reactor.network.error import NotifyError
 from exabgp.protocol.family import AFI, SAFI
 from exabgp.protocol.ip import IP
+from exabgp.reactor.network.error import NetworkError
 from exabgp.reactor.network.outgoing import Outgoing
 
 # This is the number of chuncked message we are willing to buffer, not the number of routes
@@ -161,6 +162,22 @@ class Protocol:
 
             self.connection.close()
             self.connection = None
+
+    def cease_collision(self) -> None:
+        """Tell the peer why the connection which lost the collision is closed (RFC 4271 6.8, RFC 4486: 6/7).
+
+        Synchronous and best effort, as Peer.handle_connection() is not a coroutine: the message is small
+        and the connection is closed right after, whatever could be written.
+        """
+        if self.connection is None:
+            return
+        cease = Notify(6, 7, 'connection collision resolution, the other connection is kept')
+        try:
+            for attempt, done in enumerate(self.connection.writer(cease.pack_message(self.negotiated))):
+                if done or attempt > 10:
+                    break
+        except NetworkError:
+            pass
 
     def _to_api(self, direction: str, message: Any, raw: bytes) -> None:
         packets: bool = self._api['{}-packets'.format(direction)]
